@@ -10,7 +10,7 @@ import (
 
 func init() { propChecks["C13"] = checkC13 }
 
-var c13Names = append(append([]string{}, genNames...), `he said "hi" twice`, `a,"b",c`, `semi;colon`, `ünïcödé`, `bread 🍞`, `o'neil`, `x	y`)
+var c13Names = append(append([]string{}, genNames...), `he said "hi" twice`, `a,"b",c`, `semi;colon`, `ünïcödé`, `bread 🍞`, `o'neil`, `x	y`, `орех`, `voilà`) // (the last two end in bytes 0x85 and 0xA0)
 var c13Qty = []string{"-1", "0.5", "1e-7", "0.0005", "2.675", "1.005", "123456789.125", "1e15", "-0.004", "0.0015", "-2.5e-4", "7", "94.05090880450125", "9007199254740993"}
 
 var amt3Re = regexp.MustCompile(`^-?[0-9]+\.[0-9]{3}$`)
